@@ -83,6 +83,16 @@ def precedence(ctx, rule='P4'):
                                     and effects.root_of(cond[2][0]) == (pi_idx[0], ['palette']) and q.bool_outcome(pf, a, vals) is True:
                                 guarded = True
                         okv = any(x[0] == 'call' and x[1] == dec for x in walk(ws[0][1]))
+                        # .. as the decoder returned it: no other routine of the crate gets hold of the palette in this arm (seed C11-r
+                        # rescaled a 0x0004 palette "that looks 6-bit" through a &mut method before storing it)
+                        # (a new helper would have been inlined: so nothing but plumbing may be called in the arm, and it has no loop)
+                        plumbing_ = {'std::ops::Deref::deref', 'std::ops::DerefMut::deref_mut', 'std::ops::FromResidual::from_residual', 'std::ops::Try::branch',
+                                     'std::option::Option::is_none', 'std::option::Option::is_some', 'std::sync::Arc::new', 'std::convert::From::from',
+                                     'std::convert::Into::into', 'std::result::Result::map', 'std::result::Result::map_err', 'std::option::Option::map'}
+                        others_ = sorted({q.callee_name(c_) for c_ in q.calls(pf) if c_.bb in reg and not c_.macros and q.callee_name(c_) != dec
+                                          and q.callee_name(c_) not in plumbing_})
+                        loops_ = [L_['header'] for L_ in pf.cfg.loops if L_['header'] in reg]
+                        okv = okv and not others_ and not loops_
                     ctx.inst(rule, kind, ok and guarded and okv, '%s chunk assigns parse_info.palette %s' % (
                         kind, 'only under palette.is_none()' if guarded else 'WITHOUT the palette.is_none() guard'),
                         pf.blocks[s]['term'].get('span'), key='%s|%s|%s' % (pf.name, rule, kind))
